@@ -11,16 +11,6 @@ def classify(prop, f, tr, trace_text):
     (a decidable predicate on the history, mirroring the `known_*` predicates of the Coq side)."""
     sig = f['signature']
     ops = [(ev[1], ev[2]) for ev in tr['events'] if ev[0] == 'op']
-    promoted = any(w[0] == 'promote' for _, w in ops)
-    if promoted and tr['npeers'] > 2 and sig in ('entity-sets-differ', 'value-missing', 'values-differ', 'parents-differ', 'not-exactly-one-host',
-                                                 'peer-not-client-of-new-host', 'not-quiescent', 'duplicate-entity', 'not-last-write'):
-        # S8: promotion with more than one client: the remaining clients never reach the new host
-        return 'S8-promotion-strands-other-clients'
-    if sum(1 for _, w in ops if w[0] == 'promote') > 1 and sig in ('not-exactly-one-host', 'peer-not-client-of-new-host', 'not-quiescent',
-                                                                    'entity-sets-differ', 'value-missing', 'values-differ', 'not-last-write'):
-        # S9: a second promotion: the promoted-back peer's RenetClient was disconnected by the kick of the
-        # first hand-over (sticky in renet) and never connects again
-        return 'S9-promotion-chain-broken'
     if sig in ('entity-sets-differ', 'value-missing', 'values-differ', 'parents-differ'):
         setups = {}
         for p, w in ops:
